@@ -669,6 +669,30 @@ func ruleEscapes(p *Program, r *Reporter) {
 		return rune(v), true
 	}
 	ast.Inspect(reader.Body, func(n ast.Node) bool {
+		// the same table written as a switch over the character
+		if sw, ok := n.(*ast.SwitchStmt); ok && sw.Tag != nil && isCh(sw.Tag) {
+			for _, cc := range sw.Body.List {
+				cl := cc.(*ast.CaseClause)
+				if len(cl.Body) != 1 {
+					continue
+				}
+				as, ok := cl.Body[0].(*ast.AssignStmt)
+				if !ok || len(as.Lhs) != 1 || !isCh(as.Lhs[0]) {
+					continue
+				}
+				to, ok := runeConst(as.Rhs[0])
+				if !ok {
+					continue
+				}
+				for _, e := range cl.List {
+					if from, ok := runeConst(e); ok {
+						found[from] = to
+						pos[from] = cl.Pos()
+					}
+				}
+			}
+			return true
+		}
 		iff, ok := n.(*ast.IfStmt)
 		if !ok || iff.Init != nil || iff.Else != nil || len(iff.Body.List) != 1 {
 			return true
